@@ -123,6 +123,15 @@ func runOracle(args []string) int {
 	cf, o := hxlib.ParseCommon("c05", args, nil)
 	defer o.Close()
 	rng := hxlib.NewRng(cf.Seed)
+	// programs with one instruction circuit of more than 65536 wires
+	// (well under a second each): 3 in the quick tier, more in thorough / widened runs
+	nbig := 3
+	if cf.Tier == "thorough" {
+		nbig = 12
+	}
+	if strings.HasPrefix(cf.Extra, "big=") {
+		fmt.Sscanf(cf.Extra, "big=%d", &nbig)
+	}
 	total := cf.N + len(corpus)
 	for i := 0; i < total; i++ {
 		r := rng.Fork()
@@ -133,6 +142,8 @@ func runOracle(args []string) int {
 		if i < len(corpus) {
 			p = corpus[i]
 			p.Feat = map[string]bool{}
+		} else if i < len(corpus)+nbig {
+			p = bigProgram(r, i-len(corpus)+int(cf.Seed%3))
 		} else {
 			p = safeGen(r, classes[(i-len(corpus))%len(classes)], i-len(corpus))
 			if p == nil {
@@ -233,6 +244,21 @@ func oneProgram(o *hxlib.Out, cf *hxlib.CommonFlags, i int, r *hxlib.Rng, p *pro
 			o.Count("programs_with_both_encodings")
 		}
 		o.CountN("stream_circuits", len(tr.Circs))
+		maxTmp := 0
+		for _, c := range tr.Circs {
+			if c.Tmp > maxTmp {
+				maxTmp = c.Tmp
+			}
+		}
+		if maxTmp > 0x10000 {
+			o.Count("programs_with_circuit_over_65536_wires")
+			if tr.Gates32 > 0 && tr.Gates16 > 0 {
+				o.Count("programs_with_tmp_index_over_65535_and_small_ids")
+			}
+		}
+		if os.Getenv("C05_DEBUG") != "" && p.Class == "big" {
+			fmt.Fprintf(os.Stderr, "case %d big: max circuit wires %d, gates16 %d gates32 %d\n", i, maxTmp, tr.Gates16, tr.Gates32)
+		}
 	} else if g.Status == "ok" && otName == "ideal" {
 		o.Fail("c05-transcript-unparsable", mk(map[string]any{"err": tr.Err}))
 	}
